@@ -40,6 +40,11 @@ ValueError; overflowing behaviours with the overflowing variable declared last /
 Chains of copy variables (spec/SolverChains.tla: v1 = S, v2 = v1, ... in every declaration order, source first /
 last, optional derived-only or simultaneous leaf on a link, source changing in every period) are realised and
 every copy equation AS SUBMITTED must hold exactly in every period (C02_DecorativeExact).
+Tolerances >= 1 (1.0, 2.0, 1e3; block line Err_Tolerance or ParameterErrorTolerance) are part of the grids
+and of the control spec (state field `big`, constant AsFound_NoSweepAtBigTolerance, invariant
+C02_SolvedOnlyAfterSweep); every Step event carries tol_ge1 and the number of sweeps started (0 = none).
+"The magnitude of the values" in the residual bound = max(1, |x_k|_inf, |x_(k-1)|_inf) over the simultaneous
+variables (the start iterate counts, as in the solver's own relative test) - the weaker reading.
 Readings: which equations are "derived-only" is the solver's own classification (Parser.Decoration
 after reduction); all others only need the residual bound.  Numeric predicates are computed by the
 projection in Fraction arithmetic on the reported floats; the right-hand sides are those submitted.
@@ -66,6 +71,8 @@ def run(rep):
                        'systems with user functions are observed without step trace: sweeps = calls of the registered function',
                        'TLC 1.8 / tla2tools']
     sk.expect_counterexample(rep, core, 'MC_Solver_asfound.cfg', 'C02_SolvedOnlyIfConverged')
+    if rep.tier == 'thorough':
+        sk.expect_counterexample(rep, core, 'MC_Solver_asfound3.cfg', 'C02_SolvedOnlyAfterSweep')
     behs = sk.tlc_behaviours(rep, core, rep.tier)
     items = [{'case': sk.scenario(b, v), 'behaviour': b} for b in behs if sk.scenario_realisable(b)
              for v in sk.scenario_variants(b)]
